@@ -219,6 +219,7 @@ def pool_op(run, tid, st, held):
 def execute(scn):
     if not sched._registered["codes"]:
         sched.install([_pool.ObjectPool, _base.PooledClient])     # per-instruction events for the pool code
+    engine.restore_package_state()
     run = build(scn)
     w = run.world
     th = scn["threads"]
